@@ -13,22 +13,12 @@ def rule_index(ctx, py):
     f = py.fn("rdsystem.RDSystem.get_state_index")
     rets = [r for r in ast.walk(f) if isinstance(r, ast.Return)]
     ctx.need(len(rets) == 1, R, "get_state_index: expected one return")
-    defs = {st.targets[0].id: st.value for st in ast.walk(f) if isinstance(st, ast.Assign) and
-            isinstance(st.targets[0], ast.Name)}
-    p = py_poly(rets[0].value)
-    terms = {}
-    for m, c in p.t.items():
-        terms[tuple(sorted(a for a, _ in m))] = c
-    names = {}
-    for nm, v in defs.items():
-        if isinstance(v, ast.Call):
-            names[nm] = (pyfe.call_name(v), [pyfe.src(a) for a in v.args])
-    sp = [n for n, (c, a) in names.items() if c.endswith("get_species_index") and a == ["species"]]
-    ce = [n for n, (c, a) in names.items() if c.endswith("get_cell_index") and a == ["position"]]
-    ctx.need(len(sp) == 1 and len(ce) == 1, R, "get_state_index: species / cell resolution not found")
-    want = Poly.sym(sp[0]) * Poly.sym("self.space.size()") + Poly.sym(ce[0])
-    ctx.check(p == want, R, rets[0], f._qual, pyfe.src(rets[0]), "species_index * size + cell_index, both resolved "
-              "from the arguments", "the state index is %r, expected species*size + cell" % p)
+    from .. import pysym
+    got = pysym.frat(rets[0].value, f)
+    want = pysym.rat(ast.parse("self.network.get_species_index(species) * self.space.size() + "
+                               "self.space.get_cell_index(position)", mode="eval").body)
+    ctx.check(got.equals(want), R, rets[0], f._qual, pyfe.src(rets[0]), "species_index * size + cell_index, both resolved "
+              "from the arguments", "the state index is %r, expected species*size + cell" % (got,))
     # per-entry accessors go through it with their own (species, position)
     for name, arr in (("set_chemostat", "_chemostats"), ("get_chemostat", "_chemostats"), ("set_state", "_state"),
                       ("get_state", "_state")):
